@@ -60,13 +60,20 @@ class Collector(object):
         self.extra_cov = {}
 
     def record(self, case, res):
-        self.evaluations += 1
+        # a case may stand for several executions (e.g. every fault position of one model):
+        # "evals" counts them and "nt_keys" names the non-trivial ones individually
+        self.evaluations += int(res.get("evals", 1))
         if res.get("skip"):
             self.skipped += 1
         for c in res.get("cls", ()):
             self.classes[c] = self.classes.get(c, 0) + 1
-        if res.get("nt"):
+        if res.get("nt_keys"):
+            h = case_hash(case)
+            for k in res["nt_keys"]:
+                self.nontrivial.add("%s:%s" % (h, k))
+        elif res.get("nt"):
             self.nontrivial.add(case_hash(case))
+        if res.get("nt") or res.get("nt_keys"):
             if len(self.samples) < 3 or (len(self.samples) < 6 and self.evaluations % 37 == 0):
                 self.samples.append(case)
         for bucket, detail in res.get("v", ()):
